@@ -375,6 +375,56 @@ def op_loopy_codegen(st, hid):
         return "failed:" + type(e).__name__
 
 
+READ_ONLY_USES = ("dot", "num_nodes", "inputs", "dedup", "copy_mapper",
+                  "python_target", "dependencies", "repr", "materialize")
+
+
+def op_use(st, hid, which):
+    """some OTHER consumer of the graph runs on it and throws its result away:
+    a drawing, an analysis pass, a mapper, a code generator.  None of them may
+    leave anything behind that changes what == / hash() / the persistent key
+    say afterwards (seeded change C18-c18i: the drawing code keyed the nodes
+    with a content-blind key builder, and pytools caches digests on objects
+    for ALL key builders)."""
+    import pytato as pt
+    obj = st.h[hid]
+    try:
+        if isinstance(obj, pt.Array):
+            root = pt.make_dict_of_named_arrays({"_out": obj})
+        elif isinstance(obj, pt.DictOfNamedArrays):
+            root = obj
+        else:
+            return "skipped"
+        if which == "dot":
+            pt.get_dot_graph(root)
+        elif which == "num_nodes":
+            from pytato.analysis import get_num_nodes
+            get_num_nodes(root, count_duplicates=False)
+        elif which == "inputs":
+            from pytato.transform import InputGatherer
+            InputGatherer()(root)
+        elif which == "dedup":
+            pt.transform.deduplicate(root)
+        elif which == "copy_mapper":
+            from pytato.transform import CopyMapper
+            CopyMapper()(root)
+        elif which == "python_target":
+            from pytato.target.python.numpy_like import generate_numpy_like
+            generate_numpy_like(pt.transform.deduplicate(root))
+        elif which == "dependencies":
+            from pytato.transform import DependencyMapper
+            DependencyMapper()(root)
+        elif which == "repr":
+            repr(obj)
+            str(obj)
+        elif which == "materialize":
+            from pytato.transform.materialize import materialize_with_mpms
+            materialize_with_mpms(pt.transform.deduplicate(root))
+        return "ok"
+    except Exception as e:  # noqa: BLE001
+        return "failed:" + type(e).__name__
+
+
 def op_churn(st, recipe, seed, n=25, with_keys=True):
     """time-stepper style: build, compare, key and DISCARD transient graphs
     over and over, so that object addresses are reused by new nodes while
